@@ -42,6 +42,11 @@ func wmGet(c *Ctx, r *RuleRun) *wmAnchors {
 	la := c.Locks()
 	if len(la.RoleRoots["W"]) == 1 {
 		a.process = la.RoleRoots["W"][0]
+		// the goroutine may be a thin wrapper (go func() { defer wg.Done(); processMarks(w) }()): the consumer is the
+		// function that holds the select loop
+		if h := p.directHolder(a.process, func(ins ssa.Instruction) bool { _, ok := ins.(*ssa.Select); return ok }); h != nil {
+			a.process = h
+		}
 	}
 	if a.process == nil || a.newFn == nil || a.begin == nil || a.done == nil || a.wait == nil || a.doneUntilFn == nil || a.fDoneUntil == nil || a.fMarkC == nil || a.fTs == nil || a.fDone == nil || a.fWaiter == nil {
 		r.Undecided("-", "watermark anchors", "", "watermark.New / the goroutine it starts / WaterMark methods / mark fields not found")
@@ -530,12 +535,12 @@ func runWmWait(c *Ctx, r *RuleRun) {
 		if !ok {
 			return
 		}
-		bi, ok := call.Call.Value.(*ssa.Builtin)
-		if !ok || bi.Name() != "close" {
+		src, _, isClose := chanCloseOf(p, call)
+		if !isClose {
 			return
 		}
 		// closing markC itself on stop is not a waiter
-		if fv, _ := loadedField(call.Call.Args[0]); fv == a.fMarkC {
+		if fv, _ := loadedField(src); fv == a.fMarkC {
 			return
 		}
 		n++
